@@ -149,7 +149,15 @@ def chains(co):
         else:
             i += 1
 import builtins
+import numpy as np
 bad, deprecated, undefined, total, seen, permod = [], [], [], 0, set(), {}
+REMOVED_NDARRAY_METHODS = set(n_ for n_ in ('ptp', 'newbyteorder', 'itemset', 'tostring') if not hasattr(np.ndarray, n_))
+OWN_ATTRS = set()
+for _n, _m in list(sys.modules.items()):
+    if _n.startswith('pyrex') and _m is not None:
+        for _o in list(vars(_m).values()):
+            if isinstance(_o, type) and getattr(_o, '__module__', '').startswith('pyrex'):
+                OWN_ATTRS.update(dir(_o))
 for name, mod in sorted(sys.modules.items()):
     if not name.startswith('pyrex') or mod is None:
         continue
@@ -183,6 +191,15 @@ for name, mod in sorted(sys.modules.items()):
                             except Exception as e:
                                 (deprecated if _in_guard else bad).append([name, _line, 'from %s import %s' % (_op.argval, _ins[_j].argval), type(e).__name__ + ': ' + str(e)[:120], 'guarded by try' if _in_guard else ''])
                     _j += 1
+        # methods that numpy.ndarray / numpy.generic offered at the declared lower bound (numpy 1.17) and that the installed numpy no
+        # longer has: a call `<expression>.ptp()` cannot be resolved statically, so the *name* is looked up on the installed ndarray
+        # (and on every class the package defines itself, which would make the name legitimate)
+        for _op in _ins:
+            if _op.opname in ('LOAD_ATTR', 'LOAD_METHOD') and _op.argval in REMOVED_NDARRAY_METHODS and _op.argval not in OWN_ATTRS:
+                _line = _op.positions.lineno if _op.positions else None
+                _in_guard = any(s_ <= _op.offset < e_ for s_, e_ in guards)
+                total += 1; seen.add((name, '<array>.' + _op.argval))
+                (deprecated if _in_guard else bad).append([name, _line, '<array expression>.' + _op.argval, "AttributeError: 'numpy.ndarray' object has no attribute '%s' (numpy %s; present in numpy 1.17)" % (_op.argval, np.__version__), 'guarded by try' if _in_guard else ''])
         for chain, line, off in chains(c):
             root = chain[0]
             if root not in g and not hasattr(builtins, root) and root not in c.co_varnames and root not in c.co_freevars and root not in c.co_cellvars:
@@ -274,6 +291,9 @@ def tracers_and_paths():
                 for p in tr.solutions:
                     touch(type(p).__name__, p)
                     p.attenuation(np.array([1e8, 5e8])); p.propagate(pyrex.Signal(np.arange(64) * 1e-9, np.ones(64), 'field'), polarization=(0., 1., 0.))
+                    for _pol in (None, (0., 1., 0.)):
+                        for _ai in (None, 0.1, 0.25):
+                            p.propagate(pyrex.Signal(np.arange(64) * 1e-9, np.ones(64), 'field'), polarization=_pol, attenuation_interpolation=_ai)
             attempt('tracer:%s' % rt.__name__, go)
 def antenna_histories():
     t = np.arange(200) * 1e-9
